@@ -411,6 +411,9 @@ func (w *World) reconcileItem(it QItem) ReconcileResult {
 		return res
 	}
 	w.Reconciles++
+	if t := w.Track(); t != nil {
+		t.ReconcileStart = w.seq
+	}
 	var out reconcile.Result
 	func() {
 		defer func() {
